@@ -479,11 +479,12 @@ static void segv_handler(int sig, siginfo_t *si, void *uc)
 			cur->id, (unsigned long) a, (unsigned long) pc);
 	{
 		/* instrumented (library / scenario) text lives in its own section, see Makefile */
-		extern char __start_itext[], __stop_itext[];
+		extern char __start_itext[], __stop_itext[], __start_stext[], __stop_stext[];
 		if (pc == a)
 			usim_fail("wild-jump", "T%d jumps to %#lx, which is not code (a corrupted function pointer or return address)",
 				cur->id, (unsigned long) a);
-		if (pc >= (uintptr_t) __start_itext && pc < (uintptr_t) __stop_itext)
+		if ((pc >= (uintptr_t) __start_itext && pc < (uintptr_t) __stop_itext) ||
+		    (pc >= (uintptr_t) __start_stext && pc < (uintptr_t) __stop_stext))
 			usim_fail("wild-pointer", "T%d dereferences unmapped address %#lx at pc %#lx (library or scenario code)",
 				cur->id, (unsigned long) a, (unsigned long) pc);
 	}
